@@ -40,6 +40,8 @@ def cargo_env():
     env = dict(os.environ)
     env["CARGO_NET_OFFLINE"] = "true"
     env.pop("RUSTFLAGS", None)  # .cargo/config.toml of the harness carries the cfg flag
+    env.pop("CARGO_TARGET_DIR", None)  # the harness always builds into harness/target
+    env.pop("CARGO_BUILD_TARGET_DIR", None)
     return env
 
 
